@@ -437,7 +437,7 @@ _BH = ObjOf("ghedesigner.borehole:GHEBorehole", H=Real, D=Real, r_b=Real)
 contract(f"{MGR}.set_borehole", dict(self=_M0, height=Real, buried_depth=Real, diameter=Real), name=f"{MGR}.set_borehole#loader",
          ensures=[("borehole-from-depth-and-half-the-diameter", lambda E: And(E.self._borehole.H == E.height, E.self._borehole.D == E.buried_depth, E.self._borehole.r_b == E.diameter / 2, E.result == 0))],
          assigns=[_slot("_borehole", _BH)], returns=Int,
-         notes="ASSUMED (pygfunction Borehole base class is external); radius = diameter / 2 is the line in the body; exercised by the bounded round trip").applies = lambda env: True
+         notes="caller view of set_borehole#body (ctors.py; GHEBorehole.__init__ verified down to the ASSUMED contract of pygfunction's Borehole.__init__)").applies = lambda env: True
 for _m in ("find_design", "prepare_results", "write_output_files"):
     contract(f"{MGR}.{_m}", dict(self=_M0), name=f"{MGR}.{_m}#loader", raises={"Exception": None}, returns=NoneT(),
              assigns=[_slot("_search", OpaqueOf("search")), _slot("results", OpaqueOf("results")), _slot("_search_time", Real)],
